@@ -21,10 +21,27 @@ What is generated (see RULE) and what is asserted:
     Results and exceptions of those uses are ignored (none of them is promised anything). After EVERY step the valid address of
     the case must still round-trip in all 8 variants + raw form (fresh objects and two objects made before the history), and the
     complete round-trip check runs at the end.  Signature = kind of the step after which it stopped holding + violated clause.
+  * flag values (check_flag_values): to_str called with a value of ANOTHER KIND where True / False is meant - even / odd / huge /
+    negative integers, int subclasses, IntFlag / IntEnum members (a masked configuration bit passed straight through), floats,
+    Fraction, Decimal, complex, None, strings, bytes, containers, objects that define only __bool__ / __len__ / __index__ - in each
+    of the four flag positions, positional / keyword / sparse keyword; also an int-subclass / IntEnum workchain, a bytes-subclass
+    account id, a str-subclass text. "Bounceable or not, test-only or not, URL-safe or standard, raw or friendly" is read as the
+    truth value of the argument (what `if flag:` in to_str always meant). A call that raises is not judged; a call that returns a
+    text must return the reference text of that variant, which must parse back equal with exactly those flags.
+  * first use (check_first_use): a FRESH child interpreter in which the first address operations of the process are made by 2..8
+    threads released together (render / parse / reject a substituted text / repr / raw form / through a cell; own or the same
+    address per thread; library imported before or inside the threads; default or warnings-are-errors + logging environment;
+    sys.byteorder as is or flipped), then every variant again in the child's main thread. Everything the child reports is compared
+    with the reference HERE. What a library builds lazily at first use (a table, a pattern, a cache) is reached by no check that
+    runs after any earlier call in the same process - every other sub-check, including the two-threads one, runs "warm".
+    A child that times out / is killed gives no verdict.
 
-Deliberately NOT asserted: anything about addresses whose account id is not 32 bytes or whose workchain is outside -128..127
-(only that using them does not disturb valid ones); that a text which is not a rendering of an address (e.g. 48 x 'A') is
-rejected; which exception type a rejected text raises; the cell form of an address (C-properties on Builder/Slice).
+Deliberately NOT asserted: two copies of the package imported under different names in one process (an address of one copy compared
+with an address of the other - a second import is outside the statement's "equal address"); a bool as workchain id (prints as
+'True:..' in raw form); that a non-bool flag value is ACCEPTED by to_str (only: if it is, its truth value decides); anything about
+addresses whose account id is not 32 bytes or whose workchain is outside -128..127 (only that using them does not disturb valid
+ones); that a text which is not a rendering of an address (e.g. 48 x 'A') is rejected; which exception type a rejected text raises;
+the cell form of an address (C-properties on Builder/Slice).
 """
 import hashlib
 
@@ -42,9 +59,15 @@ RULE = ('case = (workchain -128..127, 32-byte account id, bounceable, test_only,
         'of 0..4 earlier uses (odd-length account ids 0..70 bytes, workchains outside int8, rejected texts, non-boolean flags, '
         'anycast, edited parse results; each with 1..3 follow-up uses: friendly/raw/repr/hash/eq/cell/reparse/copy/tl) after each '
         'of which the valid address must still round-trip; the grid part enumerates every single-step history over all '
-        'lengths 0..40, 48, 64 x (tuple, raw text, edited parse result) x use. non-trivial = non-default flags, negative '
-        'workchain, a substitution, an anycast prefix or a non-empty history; distinct = distinct case')
+        'lengths 0..40, 48, 64 x (tuple, raw text, edited parse result) x use. flag-value cases = (address, 4 flag arguments each '
+        'a descriptor of a bool or of a value of another kind: ints even/odd/huge/negative, int subclass, IntFlag/IntEnum, float, '
+        'Fraction, Decimal, complex, None, str, bytes, containers, __bool__/__len__/__index__-only objects; call style; kinds of '
+        'workchain / account / text object; origin of the address): the grid puts each of ~100 values into each flag position. '
+        'first-use cases = (2..8 thread specs: address, variant, 1..2 first operations; repetitions; import inside threads; '
+        'environment; byte order) run in a fresh child interpreter. non-trivial = non-default flags, negative '
+        'workchain, a substitution, an anycast prefix or a non-empty history (flag-value and first-use cases: all); distinct = distinct case')
 ASSUMPTIONS = ['harness/ref/refaddr.py (TEP-2 rendering) and refcrc bitwise CRC-16; python base64',
+               'flag values: bool(x) of the interpreter is the truth value of x; first use: subprocess + json carry the child\'s results',
                'origins: Builder.store_bits/store_bit/store_uint/store_int/store_bytes and Slice.load_address only PRODUCE '
                'address objects (an origin that fails to build or is not == to the tuple-built address is skipped, not reported)']
 
@@ -500,6 +523,442 @@ _acc = st.one_of(st.binary(min_size=32, max_size=32),
                  st.sampled_from([b'\x00' * 32, b'\xff' * 32, b'\x00' * 31 + b'\x01', b'\x80' + b'\x00' * 31]))
 
 
+# ------------------------------------------------- values of another kind where a bool / int / bytes / str is meant and accepted
+FLAG_NAMES = ('is_user_friendly', 'is_url_safe', 'is_bounceable', 'is_test_only')
+_INTS = (0, 1, 2, 3, 4, 6, 7, 8, -1, -2, 0x40, 0x41, 0x80, 0x81, 0xFF, 0x100, 0x101, 1 << 31, 1 << 64, (1 << 70) + 1, 1 << 70, -(1 << 70))
+
+
+def flag_descriptors():
+    """plain-data descriptors of everything a caller passes where True / False is meant: numbers of every kind (even, odd, huge,
+    negative, int subclasses, IntFlag / IntEnum members, floats incl. -0.0 / nan / inf, Fraction, Decimal, complex), None, strings,
+    bytes, containers, objects that only define __bool__ / __len__ / __index__, a plain object()"""
+    out = [{'k': 'bool', 'v': False}, {'k': 'bool', 'v': True}, {'k': 'none'}, {'k': 'object'}]
+    out += [{'k': 'int', 'v': n} for n in _INTS]
+    out += [{'k': 'intsub', 'v': n} for n in (0, 1, 2, 4, 0x40, 0x80, 0x100, 3, -2)]
+    out += [{'k': 'intflag', 'v': n} for n in (0, 1, 2, 4, 0x40, 0x80, 0x42)] + [{'k': 'intenum', 'v': n} for n in (0, 1, 2, 0x80)]
+    out += [{'k': 'float', 's': s} for s in ('0.0', '-0.0', '0.5', '1.0', '2.0', '1e-300', '-1.5', 'inf', 'nan')]
+    out += [{'k': 'frac', 'n': n, 'd': d} for n, d in ((0, 1), (1, 2), (2, 1), (1, 1), (-4, 3))]
+    out += [{'k': 'dec', 's': s} for s in ('0', '0.0', '-0', '0.5', '2', '1', 'NaN')]
+    out += [{'k': 'complex', 're': r, 'im': i} for r, i in ((0, 0), (0, 1), (2, 0))]
+    out += [{'k': 'str', 'v': s} for s in ('', 'no', 'false', '0', 'True', ' ')]
+    out += [{'k': 'bytes', 'v': h} for h in ('', '00', '01')]
+    out += [{'k': c, 'n': n} for c in ('list', 'tuple', 'dict', 'set', 'range', 'lenobj') for n in (0, 1, 2)]
+    out += [{'k': 'boolobj', 'v': False}, {'k': 'boolobj', 'v': True}]
+    out += [{'k': 'indexobj', 'v': n} for n in (0, 1, 2)]
+    return out
+
+
+def _flag_value(d):
+    import decimal
+    import enum
+    import fractions
+    k = d['k']
+    if k == 'bool':
+        return bool(d['v'])
+    if k == 'none':
+        return None
+    if k == 'object':
+        return object()
+    if k == 'int':
+        return int(d['v'])
+    if k == 'intsub':
+        return type('Flag', (int,), {})(d['v'])
+    if k == 'intflag':
+        return enum.IntFlag('Cfg', {'TEST': 1, 'B': 2, 'C': 4, 'D': 0x40, 'E': 0x80})(d['v'])
+    if k == 'intenum':
+        return enum.IntEnum('Net', {'MAIN': 0, 'TEST': 1, 'OTHER': 2, 'HIGH': 0x80})(d['v'])
+    if k == 'float':
+        return float(d['s'])
+    if k == 'frac':
+        return fractions.Fraction(d['n'], d['d'])
+    if k == 'dec':
+        return decimal.Decimal(d['s'])
+    if k == 'complex':
+        return complex(d['re'], d['im'])
+    if k == 'str':
+        return d['v']
+    if k == 'bytes':
+        return bytes.fromhex(d['v'])
+    if k == 'list':
+        return [0] * d['n']
+    if k == 'tuple':
+        return (False,) * d['n']
+    if k == 'dict':
+        return {i: 0 for i in range(d['n'])}
+    if k == 'set':
+        return set(range(d['n']))
+    if k == 'range':
+        return range(d['n'])
+    if k == 'lenobj':
+        return type('Sized', (), {'__len__': lambda self: d['n']})()
+    if k == 'boolobj':
+        return type('Switch', (), {'__bool__': lambda self: bool(d['v'])})()
+    if k == 'indexobj':                      # no __bool__, no __len__: true, whatever number it stands for
+        return type('Indexable', (), {'__index__': lambda self: d['v']})()
+    raise AssertionError(k)
+
+
+def _flag_label(d):
+    v = d.get('v', d.get('n', d.get('s')))
+    if d['k'] in ('int', 'intsub', 'intflag', 'intenum') and isinstance(v, int):
+        return d['k'] + ('=0' if v == 0 else '=1' if v == 1 else '-even' if v % 2 == 0 else '-odd')
+    return d['k']
+
+
+def check_flag_values(case):
+    """to_str(...) called with values of another kind where True / False is meant (and Address built from an int-subclass workchain,
+    a bytes-subclass account id, parsed from a str-subclass text). The statement's variants are "bounceable or not, test-only or
+    not, URL-safe or standard, raw or friendly": a flag argument stands for its truth value, as everywhere in Python and as
+    to_str's plain `if flag:` tests always did. A call that RAISES for such a value is not judged (nothing promises that every
+    object is accepted); a call that returns a text must return the text of the variant asked for, and that text must parse back
+    into an equal address with exactly those flags."""
+    from pytoniq_core.boc.address import Address
+    wc, acc = case['wc'], bytes.fromhex(case['acc'])
+    wc_obj = {'int': lambda: wc, 'intsub': lambda: type('Wc', (int,), {})(wc),
+              'intenum': lambda: __import__('enum').IntEnum('Chain', {'THIS': wc})(wc)}[case['wc_kind']]()
+    acc_obj = acc if case['acc_kind'] == 'bytes' else type('Acc', (bytes,), {})(acc)
+    mktext = (lambda s: s) if case['text_kind'] == 'str' else type('Text', (str,), {})
+    vals = [_flag_value(d) for d in case['flags']]
+    uf, u, b, t = [bool(x) for x in vals]
+    if case['origin'] == 'tuple':
+        ok, a = call(Address, (wc_obj, acc_obj))
+    elif case['origin'] == 'raw-text':
+        ok, a = call(Address, mktext(refaddr.raw(wc, acc)))
+    else:                                        # parsed from the friendly text with the OPPOSITE flags
+        ok, a = call(Address, mktext(refaddr.friendly(wc, acc, not b, not t, not u)))
+    if not ok:
+        if case['wc_kind'] == 'int' and case['acc_kind'] == 'bytes' and case['text_kind'] == 'str':
+            return Fail('construct/raises', repr(a))
+        return None                              # a subclass instance that is not accepted: not judged
+    style = case['style']
+    if style == 'positional':
+        ok, txt = call(a.to_str, *vals)
+    elif style == 'keyword':
+        ok, txt = call(lambda: a.to_str(**dict(zip(FLAG_NAMES, vals))))
+    else:                                        # only the flags that are not plain defaults, by keyword, in reverse order
+        dflt = (True, True, True, False)
+        kw = {n: v for n, v, dv in reversed(list(zip(FLAG_NAMES, vals, dflt))) if not (v is dv)}
+        ok, txt = call(lambda: a.to_str(**kw))
+    if not ok or not isinstance(txt, str):
+        return None                              # not accepted: not judged
+    shown = ', '.join(f'{n}={v!r}'[:60] for n, v in zip(FLAG_NAMES, vals))
+    want = refaddr.friendly(wc, acc, b, t, u) if uf else refaddr.raw(wc, acc)
+    if txt != want:
+        # name the flag whose truth value was not honoured by what the text shows
+        if (':' in txt) != (not uf):
+            which = 'is_user_friendly'
+        elif not uf:
+            which = 'raw-form'
+        else:
+            import base64
+            try:
+                tag = base64.urlsafe_b64decode(txt.replace('+', '-').replace('/', '_'))[0]
+            except Exception:
+                tag = None
+            which = ('undecodable' if tag is None else 'is_test_only' if bool(tag & 0x80) != t else
+                     'is_bounceable' if (tag & 0x7F == 0x11) != b else
+                     'is_url_safe' if txt.replace('+', '-').replace('/', '_') == want.replace('+', '-').replace('/', '_') else 'body')
+        return Fail(f'to_str/truth-value-of-flag-not-honoured/{which}',
+                    f'Address({case["origin"]} of {wc}:{acc.hex()}).to_str({shown}) [{style}] = {txt!r}, the variant asked for is {want}')
+    ok, p = call(Address, mktext(txt))
+    if not ok:
+        return Fail('parse/friendly-rejected' if uf else 'parse/raw-rejected', f'to_str({shown}) = {txt}: {p!r}')
+    ok, same = call(lambda: bool(p == a) and bool(a == p) and hash(p) == hash(a) and p.wc == wc and p.hash_part == acc and len({p, a}) == 1)
+    if not ok or not same:
+        return Fail('parse/friendly-not-equal' if uf else 'parse/raw-not-equal', f'to_str({shown}) = {txt} -> wc={p.wc!r} hash={p.hash_part!r}')
+    if uf and (bool(p.is_bounceable) != b or bool(p.is_test_only) != t):
+        return Fail('parse/flags-lost', f'to_str({shown}) = {txt}: bounceable={p.is_bounceable!r} test_only={p.is_test_only!r}')
+    return None
+
+
+def enum_flag_values(tier):
+    """every flag position x every value kind, the other flags at 4 settings, positional / keyword / sparse keyword"""
+    descs = flag_descriptors()
+    T, F = {'k': 'bool', 'v': True}, {'k': 'bool', 'v': False}
+    k = 0
+    for pos in range(4):
+        for d in descs:
+            for others in ((T, T, T, F), (T, F, F, T), (T, T, F, T), (T, F, T, T)):
+                k += 1
+                flags = list(others)
+                flags[pos] = d
+                base = _base(k, b'f')
+                yield {'wc': base['wc'], 'acc': base['acc'], 'flags': flags, 'style': ('positional', 'keyword', 'sparse')[k % 3],
+                       'wc_kind': 'int', 'acc_kind': 'bytes', 'text_kind': 'str', 'origin': ('tuple', 'friendly-text', 'raw-text')[k // 3 % 3]}
+    # two flags of another kind at once (the same and different values), and the numbers where an int / bytes / str is meant
+    nums = [d for d in descs if d['k'] in ('int', 'intsub', 'intflag', 'float', 'none', 'str')]
+    for i, d1 in enumerate(nums):
+        d2 = nums[(i * 7 + 3) % len(nums)]
+        for flags in ([T, T, d1, d2], [T, d1, d1, d1], [d2, d1, T, d1]):
+            k += 1
+            base = _base(k, b'f')
+            yield {'wc': base['wc'], 'acc': base['acc'], 'flags': flags, 'style': ('positional', 'keyword', 'sparse')[k % 3],
+                   'wc_kind': ('int', 'intsub', 'intenum', 'intsub')[k % 4], 'acc_kind': ('bytes', 'bytes-subclass')[k // 4 % 2],
+                   'text_kind': ('str', 'str-subclass')[k // 8 % 2], 'origin': ('tuple', 'friendly-text', 'raw-text')[k // 3 % 3]}
+
+
+def strat_flag_values(tier):
+    d = st.sampled_from(flag_descriptors())
+    plain = st.booleans().map(lambda v: {'k': 'bool', 'v': v})
+    num = st.one_of(st.integers(-4, 300), st.integers(0, 80).map(lambda e: 1 << e), st.integers(-(1 << 80), 1 << 80))
+    flag = st.one_of(plain, d, num.map(lambda n: {'k': 'int', 'v': n}), num.map(lambda n: {'k': 'intsub', 'v': n}))
+    return st.fixed_dictionaries({'wc': st.integers(-128, 127), 'acc': _acc.map(bytes.hex), 'flags': st.tuples(flag, flag, flag, flag).map(list),
+                                  'style': st.sampled_from(['positional', 'keyword', 'sparse']),
+                                  'wc_kind': st.sampled_from(['int', 'int', 'intsub', 'intenum']),
+                                  'acc_kind': st.sampled_from(['bytes', 'bytes-subclass']), 'text_kind': st.sampled_from(['str', 'str-subclass']),
+                                  'origin': st.sampled_from(['tuple', 'friendly-text', 'raw-text'])})
+
+
+def classify_flags(case):
+    yield ('neg-wc' if case['wc'] < 0 else 'wc>=0')
+    for n, d in zip(FLAG_NAMES, case['flags']):
+        if d['k'] != 'bool':
+            yield f'{n}:{_flag_label(d)}'
+    yield 'style=' + case['style']
+    yield 'origin=' + case['origin']
+    for key in ('wc_kind', 'acc_kind', 'text_kind'):
+        if case[key] not in ('int', 'bytes', 'str'):
+            yield f'{key}={case[key]}'
+
+
+# --------------------------------------------- the FIRST uses of the library in a process, made by threads at the same time
+FIRST_OPS = ('render', 'parse', 'reject', 'repr', 'raw', 'parse-raw', 'cell')
+
+_CHILD = r'''
+import sys, json, threading
+case = json.loads(sys.stdin.read())
+sys.path[:0] = [case['repo']]
+sys.setswitchinterval(1e-6)
+Address = None
+if not case['import_in_threads']:
+    from pytoniq_core.boc.address import Address
+if case['noisy']:
+    import logging, warnings
+    class _Render(logging.Handler):
+        def emit(self, record):
+            try:
+                record.getMessage()
+            except Exception:
+                pass
+    logging.getLogger().setLevel(1)
+    logging.getLogger().addHandler(_Render())
+    warnings.simplefilter('error')
+    warnings.filterwarnings('default', module=r'(hypothesis|nacl|Cryptodome|bitarray|x25519|coverage|atheris)(\.|$)')
+if case['byteorder']:
+    sys.byteorder = 'big' if sys.byteorder == 'little' else 'little'
+specs = case['threads']
+results = [[] for _ in specs]
+ready, go = [], []
+
+
+def facts(A, p, wc, acc):
+    a = A((wc, acc))
+    return ['addr', p.wc, p.hash_part.hex(), bool(p.is_bounceable), bool(p.is_test_only),
+            bool(p == a) and bool(a == p) and hash(p) == hash(a) and len({p, a}) == 1]
+
+
+def do(A, op, sp, wc, acc):
+    v = sp['v']
+    b, t, u = bool(v & 1), bool(v & 2), bool(v & 4)
+    try:
+        if op == 'render':
+            return ['text', A((wc, acc)).to_str(True, u, b, t)]
+        if op == 'raw':
+            return ['text', A((wc, acc)).to_str(False)]
+        if op == 'repr':
+            repr(A((wc, acc)))
+            return ['text', A((wc, acc)).to_str(is_user_friendly=True, is_url_safe=u, is_bounceable=b, is_test_only=t)]
+        if op == 'parse':
+            return facts(A, A(sp['texts'][v]), wc, acc)
+        if op == 'parse-raw':
+            return facts(A, A(sp['rawt']), wc, acc)
+        if op == 'cell':
+            p = A(sp['texts'][v])
+            try:
+                p = p.to_cell().begin_parse().load_address()
+            except Exception:
+                return ['skipped']               # the cell form is other properties' business
+            return facts(A, p, wc, acc)
+        if op == 'reject':
+            p = A(sp['bad'])
+            return ['accepted', p.wc, p.hash_part.hex()]
+    except Exception as e:
+        return ['raises', type(e).__name__, str(e)[:200]]
+    return ['unknown-op']
+
+
+def work(k):
+    sp = specs[k]
+    out = results[k]
+    ready.append(k)
+    while not go:        # spin: all threads leave the starting line together
+        pass
+    try:
+        A = Address
+        if A is None:
+            from pytoniq_core.boc.address import Address as A
+        wc, acc = sp['wc'], bytes.fromhex(sp['acc'])
+        for r in range(case['reps']):
+            for op in sp['ops']:
+                out.append([op] + do(A, op, sp, wc, acc))
+    except BaseException as e:
+        out.append(['thread', 'died', type(e).__name__, str(e)[:200]])
+
+
+ths = [threading.Thread(target=work, args=(k,), daemon=True) for k in range(len(specs))]
+for th in ths:
+    th.start()
+while len(ready) < len(specs):
+    pass
+go.append(1)
+for th in ths:
+    th.join()
+# afterwards, one thread: every address of the case, every variant
+from pytoniq_core.boc.address import Address as A
+after = []
+for sp in specs:
+    wc, acc = sp['wc'], bytes.fromhex(sp['acc'])
+    row = []
+    for v in range(8):
+        s2 = dict(sp, v=v)
+        row.append([do(A, 'render', s2, wc, acc), do(A, 'parse', s2, wc, acc)])
+    after.append({'variants': row, 'raw': do(A, 'raw', sp, wc, acc), 'parse-raw': do(A, 'parse-raw', sp, wc, acc),
+                  'reject': do(A, 'reject', sp, wc, acc)})
+sys.stdout.write(json.dumps({'threads': results, 'after': after}))
+'''
+
+
+def _bad_of(text, n, url):
+    """the friendly text with one character replaced (position and replacement derived from n)"""
+    alpha = URL if url else STD
+    pos = n % 48
+    r = alpha[(alpha.index(text[pos]) + 1 + n // 48 % 63) % 64]
+    return text[:pos] + r + text[pos + 1:]
+
+
+def _judge_first(op, got, sp, wc, acc):
+    """(clause, detail) when the result of one call made in the child process is not what the statement says, else None"""
+    v = sp['v']
+    b, t, u = bool(v & 1), bool(v & 2), bool(v & 4)
+    kind = got[0]
+    if op in ('render', 'repr', 'raw'):
+        want = refaddr.raw(wc, acc) if op == 'raw' else refaddr.friendly(wc, acc, b, t, u)
+        if kind != 'text' or got[1] != want:
+            return ('to_str/raw-differs' if op == 'raw' else 'to_str/friendly-differs-from-TEP2'), f'{got[1:]!r} != {want}'
+        return None
+    if op in ('parse', 'parse-raw', 'cell'):
+        text = sp['rawt'] if op == 'parse-raw' else sp['texts'][v]
+        form = 'raw' if op == 'parse-raw' else 'friendly'
+        if kind == 'skipped':
+            return None
+        if kind == 'raises':
+            return f'parse/{form}-rejected', f'{text}: {got[1:]!r}'
+        if kind != 'addr' or got[1] != wc or got[2] != acc.hex() or got[5] is not True:
+            return f'parse/{form}-not-equal', f'{text} -> {got[1:]!r}'
+        if op == 'parse' and (got[3] != b or got[4] != t):
+            return 'parse/flags-lost', f'{text}: bounceable={got[3]} test_only={got[4]}'
+        return None
+    if op == 'reject':
+        if kind == 'accepted':
+            return 'substitution-accepted', f'{sp["texts"][v]} -> {sp["bad"]} accepted as {got[1:]!r}'
+        return None
+    return None
+
+
+def check_first_use(case):
+    """A FRESH interpreter process in which the very first uses of the address code are made by several threads at the same time
+    (each thread its own address and variant; render / parse / reject a substituted text / repr / raw form / through a cell), then
+    by the main thread again for every variant. Whatever is built at first use (a table, a compiled pattern, a cache) must come out
+    the same as when one thread builds it: every rendering equals the TEP-2 reference, every reference text parses back equal with
+    its flags, every substituted text is rejected - during the overlap and for the rest of the process's life."""
+    import json
+    import os
+    import subprocess
+    import sys
+    from harness.core import REPO, HarnessError
+    specs = []
+    for i, sp in enumerate(case['threads']):
+        wc, acc = sp['wc'], bytes.fromhex(sp['acc'])
+        texts = [refaddr.friendly(wc, acc, bool(v & 1), bool(v & 2), bool(v & 4)) for v in range(8)]
+        specs.append(dict(sp, texts=texts, rawt=refaddr.raw(wc, acc), bad=_bad_of(texts[sp['v']], sp['n'], bool(sp['v'] & 4))))
+    inp = dict(case, threads=specs, repo=REPO)
+    env = dict(os.environ)
+    env.pop('PYTHONPATH', None)
+    try:
+        p = subprocess.run([sys.executable] + (['-O'] if sys.flags.optimize else []) + ['-c', _CHILD], input=json.dumps(inp),
+                           capture_output=True, text=True, timeout=120, env=env)
+    except (subprocess.TimeoutExpired, OSError):
+        return None                              # no verdict: the machine, not the library
+    if p.returncode < 0:
+        return None
+    try:
+        out = json.loads(p.stdout)
+    except ValueError:
+        out = None
+    if p.returncode != 0 or not isinstance(out, dict):
+        err = '\n'.join(ln for ln in p.stderr.splitlines() if 'conda' not in ln)[-1500:]
+        if 'pytoniq_core' in err and 'Traceback' in err:
+            return Fail('fresh-process/valid-uses-end-in-an-exception', err)
+        raise HarnessError(f'child process of check_first_use failed (exit {p.returncode}): {err}')
+    how = 'overlapping-threads' if len(specs) > 1 else 'one-thread'
+    for k, (sp, res) in enumerate(zip(specs, out['threads'])):
+        wc, acc = sp['wc'], bytes.fromhex(sp['acc'])
+        if len(res) != case['reps'] * len(sp['ops']):
+            return Fail(f'first-use/{how}/thread-died', f'thread {k}: {res[-1:]!r}')
+        for i, r in enumerate(res):
+            bad = _judge_first(r[0], r[1:], sp, wc, acc)
+            if bad:
+                return Fail(f'first-use/{how}/{bad[0]}', f'fresh process, {len(specs)} threads start together; thread {k}, call {i} ({r[0]} of '
+                            f'{wc}:{acc.hex()}): {bad[1]}')
+    for k, (sp, aft) in enumerate(zip(specs, out['after'])):
+        wc, acc = sp['wc'], bytes.fromhex(sp['acc'])
+        for v, (rend, prs) in enumerate(aft['variants']):
+            s2 = dict(sp, v=v)
+            for op, got in (('render', rend), ('parse', prs)):
+                bad = _judge_first(op, got, s2, wc, acc)
+                if bad:
+                    return Fail(f'first-use/{how}/{bad[0]}', f'fresh process, AFTER {len(specs)} threads made the first calls together, in the '
+                                f'main thread: {op} of {wc}:{acc.hex()} variant {v}: {bad[1]}')
+        for op in ('raw', 'parse-raw', 'reject'):
+            bad = _judge_first(op, aft[op], sp, wc, acc)
+            if bad:
+                return Fail(f'first-use/{how}/{bad[0]}', f'fresh process, AFTER {len(specs)} threads made the first calls together, in the '
+                            f'main thread: {op} of {wc}:{acc.hex()}: {bad[1]}')
+    return None
+
+
+def enum_first_use(tier):
+    firsts = (['render'], ['parse'], ['reject', 'parse'], ['repr'], ['raw', 'render'], ['parse-raw', 'parse'], ['cell'], None)
+    k = 0
+    for rep in range(1 if tier == 'quick' else 12):
+        for nthreads in (2, 3, 4, 8):
+            for first in firsts:
+                k += 1
+                threads = []
+                for i in range(nthreads):
+                    base = _base(k * 8 + i if not (k % 5 == 0) else k * 8, b'first')       # every 5th case: all threads the SAME address
+                    ops = first if first is not None else [FIRST_OPS[(i + k) % len(FIRST_OPS)], FIRST_OPS[(i * 3 + k + 1) % len(FIRST_OPS)]]
+                    threads.append({'wc': base['wc'], 'acc': base['acc'], 'v': (k + i * 3) % 8, 'n': k * 131 + i * 17, 'ops': list(ops)})
+                yield {'threads': threads, 'reps': (1, 3, 20)[k % 3], 'import_in_threads': k % 4 == 3, 'noisy': k % 4 == 2,
+                       'byteorder': k % 8 in (1, 6)}
+    for first in (['render'], ['parse'], ['reject', 'render', 'parse-raw']):               # the same, one thread only
+        k += 1
+        base = _base(k, b'first')
+        yield {'threads': [{'wc': base['wc'], 'acc': base['acc'], 'v': k % 8, 'n': k, 'ops': first}], 'reps': 2, 'import_in_threads': False,
+               'noisy': k % 2 == 0, 'byteorder': k % 2 == 1}
+
+
+def classify_first(case):
+    yield f"threads={len(case['threads'])}"
+    for sp in case['threads']:
+        yield 'first-call=' + sp['ops'][0]
+    if len({(sp['wc'], sp['acc']) for sp in case['threads']}) == 1 and len(case['threads']) > 1:
+        yield 'all-threads-same-address'
+    for key in ('import_in_threads', 'noisy', 'byteorder'):
+        if case[key]:
+            yield key
+
+
 HEXCH = '0123456789abcdefABCDEF'
 
 
@@ -687,6 +1146,17 @@ SUBCHECKS = [
         note='every single-step history (odd account lengths 0..40,48,64 x origin x use; odd workchains; rejected texts; sloppy flags; '
              'edited parse results; anycast) and grow-then-shrink pairs; round trip of the valid address re-checked after every step'),
     Sub('history-random', check_history, strategy=strat_history, classify=classify, nontrivial=nt, n=(250, 40000), shards=(8, 32)),
+    Sub('flag-values-grid', check_flag_values, enum=enum_flag_values, classify=classify_flags, nontrivial=lambda c: True, shards=(4, 8),
+        note='to_str with a value of another kind where True / False is meant: every flag position x ~100 values (even / odd / huge / '
+             'negative ints, int subclasses, IntFlag / IntEnum members, floats, Fraction, Decimal, complex, None, strings, bytes, '
+             'containers, objects with only __bool__ / __len__ / __index__) x 4 settings of the other flags x positional / keyword / '
+             'sparse keyword call; plus pairs, int-subclass workchains, bytes-subclass accounts, str-subclass texts'),
+    Sub('flag-values-random', check_flag_values, strategy=strat_flag_values, classify=classify_flags, nontrivial=lambda c: True,
+        n=(500, 30000), shards=(4, 16)),
+    Sub('first-use-in-a-fresh-process', check_first_use, enum=enum_first_use, classify=classify_first, nontrivial=lambda c: True,
+        shards=(4, 8), case_cpu_s=120,
+        note='a child interpreter in which the FIRST address renderings / parsings of the process are made by 2..8 threads released '
+             'together (switch interval 1 us), then all variants once more in its main thread; oracle = the TEP-2 reference'),
 ]
 
 # the same generated cases, several at a time, checked by threads that run at the same time (core.run_overlapping): per-call state
